@@ -42,6 +42,13 @@ import Autog.Properties.C14
     * on the machines the models run: the cycle test is complete (`C01_hasCycles_complete`), the greedy breaker ranks every node
       exactly once for every pick oracle (`C01_greedy_assigns_every_node_once`), Kahn initialisation processes every node of a DAG
       (`C01_ns_init_processes_every_node`), the component DFS closes (`C01_components_closed_connected`).
+    * `C01_upto_tight_tree_any_input`: for EVERY non-empty edge list and option set the pre-processing returns, every component it
+      returns is adjacency consistent (`adjL_preProcess`) and stays so through phase 1 with either breaker, so both cycle tests, the
+      depth-first breaker and the tight-tree walk of the layerers return — no well-formedness hypothesis left;
+    * `C01_setColor_total`, `C01_block_building_total`: SinkColoring's block building climbs one band per call;
+    * `C01_breakLongEdges_total`: the index loop of `breakLongEdges` over the edge list it extends ends within the model's fuel on every
+      state whose listed edges lie in the stores, never point upwards by more than one layer and are no longer than the layer list
+      (decidable form `breakWFb`, evaluated on the traced state after phase 2 as `K:breakWF`): each cut lowers the remaining span by one.
     NOT proved (observed under watchdogs on the whole option grid): fuel sufficiency of the remaining loops (pivots are bounded by
     construction), termination of WMedian's transposes, Brandes–Köpf, SinkColoring's fixpoint, the simplex pivots; Splines routing is a known finding. -/
 
